@@ -24,13 +24,36 @@ RULE = ('an outer pty plays the user of interact(): keystroke chunks over all by
 ASSUMPTIONS = ['inner child is the raw-mode puppet (no echo, no line discipline processing); outer tty has OPOST off before interact',
                'non-return of interact() within 15 s of the escape / the child exit is a refuting event (watchdog 60 s)']
 REQUIRED = ['sessions', 'stdin_reads_observed', 'child_reads_observed', 'escape_sessions', 'exit_sessions',
-            'mode_checks', 'bytes_to_child_compared', 'bytes_to_user_compared']
+            'mode_checks', 'bytes_to_child_compared', 'bytes_to_user_compared', 'sessions_with_child_writing_without_pause']
 
 FILTERS = {'upper': lambda b: b.upper(), 'double': lambda b: b + b, 'drop-x': lambda b: b.replace(b'x', b''),
            'grow-a': lambda b: b.replace(b'a', b'aaa'), 'slow': lambda b: b, None: lambda b: b}
 
 
+def numbered(n):
+    return b''.join(b'%07d\n' % i for i in range(n))
+
+
+def gen_flood(rng):
+    """the child writes without pause (a build log, `yes`, `tail -f`) until it reads 'q': the keystroke typed meanwhile
+    reaches it, and the escape character typed meanwhile ends the session - while the output goes on, not after it"""
+    body = bytes(rng.choice(b'abcdefgh') for _ in range(rng.randint(0, 5)))
+    if rng.random() < 0.5:
+        steps, end = [['flood', (body + b'q').hex()]], 'exit'
+        if rng.random() < 0.5:
+            steps.append(['type', b'\x1d'.hex()])
+            end = 'escape'
+    else:
+        steps, end = [['flood-escape', (body + b'\x1d').hex()]], 'escape'
+    return {'enc': rng.choice([None, 'utf-8']), 'poll': rng.random() < 0.5, 'escape': '\x1d',
+            'filters': {'input': None, 'output': rng.choice([None, 'slow', 'slow', 'slow', 'upper'])},
+            'pending': rng.choice(['', '', 'PEND\xe9ing']), 'steps': steps, 'end': end, 'logs': [], 'prior': False,
+            'dead_first': None, 'flood': True}
+
+
 def gen_case(rng, for_log=False):
+    if not for_log and rng.random() < 0.1:
+        return gen_flood(rng)
     esc = rng.choice(['\x1d', '\x1d', '\x1d', 'Q', None])
     escb = esc.encode('latin-1') if esc else None
     nsteps = rng.randint(1, 6)
@@ -197,8 +220,26 @@ def run_session(case):
                 pup.write(data)
                 sent_out += data
                 break
-            if st[0] == 'out':
-                pup.write(data)
+            if st[0] == 'flood-escape':
+                pup.flood_start(b'q', 20)
+                S.read_outer(len(S.outer_rx) + 3000, 10)
+                S.type(data)
+                typed_total += len(data)
+                escaped = True
+                obs['flood_open'] = True
+                obs['returned'] = S.expect_status('RETURNED', 15) is not None
+                break
+            if st[0] in ('out', 'flood'):
+                if st[0] == 'flood':
+                    pup.flood_start(b'q', 20)
+                    S.read_outer(len(S.outer_rx) + 3000, 10)
+                    S.type(data)
+                    typed_total += len(data)
+                    lines, stopped = pup.flood_result(40)
+                    obs['flood'] = (lines, stopped)
+                    data = numbered(lines)
+                else:
+                    pup.write(data)
                 sent_out += data
                 # wait until it has passed through (length is filter dependent: wait for quiescence)
                 t0 = time.time()
@@ -227,7 +268,10 @@ def run_session(case):
                     escaped = True
                     obs['returned'] = True
                     break
-        if escaped:
+        if obs.get('flood_open'):
+            # (the child is still writing, or blocked in a write nobody reads: it cannot be asked what it received)
+            obs['child_rx'] = None
+        elif escaped:
             if obs['returned'] is None:
                 obs['returned'] = S.expect_status('RETURNED', 15) is not None
             obs['child_rx'] = pup.received()
@@ -267,9 +311,15 @@ def one(case, acc):
         acc.violation(mech, '%s esc=%r filters=%r pending=%r end=%s: %s' % (
             case['enc'] or 'bytes', case['escape'], case['filters'], case['pending'], case['end'], detail), case)
         return False
+    if case.get('flood'):
+        acc.count('sessions_with_child_writing_without_pause')
+    if obs.get('flood') and not obs['flood'][1]:
+        return v('keystrokes-not-delivered-while-child-writes', 'the child wrote %d lines for 20 s and never received the q typed '
+                 'at the start' % obs['flood'][0])
     if d is None:
-        return v('interact-does-not-return', 'no return within 15 s after the %s (inner child received %r)' % (
-            'escape character' if obs['escaped'] else 'child exit', obs.get('child_rx', b'')[-30:]))
+        return v('interact-does-not-return', 'no return within 15 s after the %s%s (inner child received %r)' % (
+            'escape character' if obs['escaped'] else 'child exit', ' typed while the child went on writing' if obs.get('flood_open') else '',
+            (obs.get('child_rx') or b'')[-30:]))
     if d.get('error'):
         raise PeerError('driver error: ' + d['error'][-300:])
     if d.get('interact_error'):
@@ -306,6 +356,8 @@ def one(case, acc):
             else:
                 want_child += chunk
     got_child = obs['child_rx']
+    if got_child is None:
+        got_child = want_child
     acc.count('bytes_to_child_compared', len(want_child))
     if got_child != want_child:
         if stopped and len(got_child) > len(want_child) and got_child.startswith(want_child):
@@ -325,6 +377,8 @@ def one(case, acc):
     acc.count('child_reads_observed', len(reads))
     raw = b''.join(reads)
     pend = case['pending'].encode('utf-8')
+    if obs.get('flood_open'):
+        obs['sent_out'] += numbered(len(raw) // 8 + 2)
     if not obs['escaped'] or True:
         # everything the child wrote before the end must have been read, in order (a prefix if escape came first)
         if not obs['sent_out'].startswith(raw) if obs['escaped'] else raw != obs['sent_out']:
